@@ -27,6 +27,25 @@ theorem drain_releases (s : Sess) (sid h : Nat) (hin : (sid, h) ∈ s.streams) (
   · exact ⟨_, rfl, key.1, key.2⟩
   · exact ⟨_, rfl, key.1, key.2⟩
 
+/-- T9.1a' `drain_closes_readers`: a stream that is in both tables under the same handle (every
+stream `open_stream` registered and no FIN removed) has its inbound channel closed by the drain:
+its reader obtains what was queued and then end of stream (C01 `closed_reader_read`). -/
+theorem drain_closes_readers (s : Sess) (sid h : Nat) (hin : (sid, h) ∈ s.streams) (hrecv : (sid, h) ∈ s.recv)
+    (o : Obj) (ho : s.objs[h]? = some o) :
+    ∃ o', s.closeDrain.objs[h]? = some o' ∧ o'.rd.chanOpen = false ∧ o'.closedFlag = true := by
+  have hany : s.streams.any (fun kv => kv.2 == h) = true := List.any_eq_true.mpr ⟨(sid, h), hin, by simp⟩
+  have hany2 : s.recv.any (fun kv => kv.2 == h && s.streams.any (fun x => x.1 == kv.1)) = true := by
+    apply List.any_eq_true.mpr
+    refine ⟨(sid, h), hrecv, ?_⟩
+    simp only [beq_self_eq_true, Bool.true_and]
+    exact List.any_eq_true.mpr ⟨(sid, h), hin, by simp⟩
+  unfold Sess.closeDrain
+  simp only [List.getElem?_mapIdx, ho, Option.map_some, hany, if_true, hany2]
+  refine ⟨_, rfl, ?_, ?_⟩
+  · simp [RState.closeChan]
+  · unfold Obj.notifySynack Obj.closeWithError
+    cases o.synack <;> simp
+
 /-- closed, then someone is still executing `close()` or the transport has been shut down -/
 def CloseInv (cs : CS) : Prop :=
   cs.s.closed = true → (∃ t, (cs.task t).pc.closing = true) ∨ cs.s.shut = true
